@@ -85,7 +85,7 @@ pub fn run(ctx: &mut Ctx) {
     for (n, ok) in rsm4::selftest() {
         ctx.selftest(&n, ok);
     }
-    ctx.require(&["encrypt", "decrypt", "structured", "random", "history", "history_clone", "openssl_ecb", "sbox_all_bytes", "roundtrip_dec_enc", "roundtrip_enc_dec"]);
+    ctx.require(&["encrypt", "decrypt", "structured", "random", "history", "history_clone", "openssl_ecb", "sbox_all_bytes", "roundtrip_dec_enc", "roundtrip_enc_dec", "unaligned_slices"]);
 
     // --- OpenSSL ECB corpus
     let c = corpus::load("sm4_openssl.json");
@@ -178,6 +178,35 @@ pub fn run(ctx: &mut Ctx) {
         ctx.selftest("algebraically computed S-box is a bijection", seen.iter().all(|&x| x));
     }
 
+    // --- the same block handed over as a sub-slice at every offset 0..=8 of a 16-byte-aligned buffer (and the key likewise)
+    #[repr(align(16))]
+    struct Aligned([u8; 64]);
+    let mut pa = ctx.prng("align");
+    for i in 0..ctx.n(16, 400) {
+        let key: [u8; 16] = pa.arr();
+        let blk: [u8; 16] = pa.arr();
+        if !ctx.mine(i) {
+            continue;
+        }
+        let r = rsm4::Sm4::new(&key);
+        let (e, d) = (r.enc(&blk), r.dec(&blk));
+        for off in 0..=8usize {
+            let mut kb = Aligned([0; 64]);
+            let mut bb = Aligned([0; 64]);
+            kb.0[off..off + 16].copy_from_slice(&key);
+            bb.0[off..off + 16].copy_from_slice(&blk);
+            ctx.eval();
+            ctx.class("unaligned_slices");
+            let w = json!({"key": hex::encode(key), "block": hex::encode(blk), "offset_in_aligned_buffer": off});
+            match guard(|| {
+                let c = Sm4Cipher::new(&kb.0[off..off + 16])?;
+                Ok::<_, gm_sm4::Sm4Error>((c.encrypt(&bb.0[off..off + 16])?, c.decrypt(&bb.0[off..off + 16])?))
+            }) {
+                Outcome::Ret(Ok((ev, dv))) if ev == e && dv == d => {}
+                o => ctx.violation(&format!("Sm4Cipher:unaligned-slice:{}", if matches!(o, Outcome::Ret(Ok(_))) { "wrong-block" } else { o.class() }), w),
+            }
+        }
+    }
     // --- random (key, block) pairs
     let n = ctx.n(20_000, 2_000_000);
     let mut prng = ctx.prng("random");
